@@ -366,14 +366,24 @@ func genMsgs(emit func(desc string, m krpc.Msg)) {
 
 // ---- corpus for the byte neighbourhood --------------------------------------------------------
 
+// c15CorpusPanic: a panic while encoding a generated (well-formed) message for the corpus.
+var c15CorpusPanic string
+
 func c15Corpus() (c [][]byte) {
 	n := 0
 	genMsgs(func(desc string, m krpc.Msg) {
 		n++
 		if n%97 == 1 && len(c) < 34 {
-			if b, err := bencode.Marshal(m); err == nil && len(b) < 400 {
-				c = append(c, b)
-			}
+			func() {
+				defer func() {
+					if r := recover(); r != nil && c15CorpusPanic == "" {
+						c15CorpusPanic = fmt.Sprintf("panic: encoding the well-formed message %s panicked: %v", desc, r)
+					}
+				}()
+				if b, err := bencode.Marshal(m); err == nil && len(b) < 400 {
+					c = append(c, b)
+				}
+			}()
 		}
 	})
 	id := strings.Repeat("A", 20)
@@ -664,6 +674,10 @@ func init() {
 			r.Viol = c15Other(c.H[0], arg(1), arg(2))
 		case "nodesfile":
 			r.Viol = c15NodesFile(arg(0))
+		case "corpus":
+			c15CorpusPanic = ""
+			c15Corpus()
+			r.Viol = c15CorpusPanic
 		}
 		return
 	}
@@ -699,12 +713,14 @@ func TestC15(t *testing.T) {
 				if n == 3 {
 					w.Sample(c)
 				}
-				if b, err := bencode.Marshal(m); err == nil {
-					if v, _ := c15Fixpoint(b); v != "" {
-						w.Violate(explore.Case{Prop: "C15", Unit: "bytes", H: []string{hex.EncodeToString(b)}}, v)
+				guard(func() { // a panic here was already reported by c15RoundTrip above
+					if b, err := bencode.Marshal(m); err == nil {
+						if v, _ := c15Fixpoint(b); v != "" {
+							w.Violate(explore.Case{Prop: "C15", Unit: "bytes", H: []string{hex.EncodeToString(b)}}, v)
+						}
+						fx++
 					}
-					fx++
-				}
+				})
 			})
 			w.Count(n+fx, n)
 			w.Outcome("grammar", int(n))
@@ -712,6 +728,9 @@ func TestC15(t *testing.T) {
 	}
 	// (b) byte neighbourhood, sharded by corpus element
 	corpus := c15Corpus()
+	if c15CorpusPanic != "" && w.ShardI == 0 {
+		w.Violate(explore.Case{Prop: "C15", Unit: "corpus", H: []string{"build"}}, c15CorpusPanic)
+	}
 	w.Bound("corpus", len(corpus))
 	for ci, d := range corpus {
 		u := idx
